@@ -287,9 +287,39 @@ fn c14_from_float_e1_bounded(seed: u64) {
     report("c14_from_float_e1_bounded", "B", c14_float_e1(seed), &["failures list the f64 bit patterns fed to from_f64 (and, narrowed with `as f32`, to from_f32) for some width N of the sweep".to_string()]);
 }
 
+/// `vnative dump <seed>`: prints vectors computed by the REAL crate (op n es a b c result) for the Python Fraction oracle
+/// (oracle/crosscheck.py); the crate's results are proved equal to the Rust spec, so agreement validates spec vs. second oracle
+fn dump(seed: u64) {
+    for i in 0..1500u64 {
+        let r = mix(i ^ seed.wrapping_mul(77));
+        let (a, b, c) = (structured(32, r), structured(32, mix(r)), structured(32, mix(r ^ 5)));
+        let (pa, pb, pc) = (P32E2::from_bits(a), P32E2::from_bits(b), P32E2::from_bits(c));
+        println!("add 32 2 {:#x} {:#x} 0 {:#x}", a, b, pa.add(pb).to_bits());
+        println!("sub 32 2 {:#x} {:#x} 0 {:#x}", a, b, pa.sub(pb).to_bits());
+        println!("mul 32 2 {:#x} {:#x} 0 {:#x}", a, b, pa.mul(pb).to_bits());
+        println!("div 32 2 {:#x} {:#x} 0 {:#x}", a, b, pa.div(pb).to_bits());
+        println!("fma 32 2 {:#x} {:#x} {:#x} {:#x}", a, b, c, pa.mul_add(pb, pc).to_bits());
+        println!("sqrt 32 2 {:#x} 0 0 {:#x}", a, pa.sqrt().to_bits());
+        let (a16, b16, c16) = ((a >> 16) as u16, (b >> 16) as u16, (c >> 16) as u16);
+        let (qa, qb, qc) = (P16E1::from_bits(a16), P16E1::from_bits(b16), P16E1::from_bits(c16));
+        println!("add 16 1 {:#x} {:#x} 0 {:#x}", a16, b16, qa.add(qb).to_bits());
+        println!("mul 16 1 {:#x} {:#x} 0 {:#x}", a16, b16, qa.mul(qb).to_bits());
+        println!("div 16 1 {:#x} {:#x} 0 {:#x}", a16, b16, qa.div(qb).to_bits());
+        println!("fms 16 1 {:#x} {:#x} {:#x} {:#x}", a16, b16, c16, qa.mul_sub(qb, qc).to_bits());
+        println!("fsp 16 1 {:#x} {:#x} {:#x} {:#x}", a16, b16, c16, qc.sub_product(qa, qb).to_bits());
+        let (a8, b8) = ((a >> 24) as u8, (b >> 24) as u8);
+        println!("mul 8 0 {:#x} {:#x} 0 {:#x}", a8, b8, P8E0::from_bits(a8).mul(P8E0::from_bits(b8)).to_bits());
+        println!("from_f64 16 1 {:#x} 0 0 {:#x}", structured_f64(r), P16E1::from_f64(f64::from_bits(structured_f64(r))).to_bits());
+        println!("from_f64 32 2 {:#x} 0 0 {:#x}", structured_f64(r), P32E2::from_f64(f64::from_bits(structured_f64(r))).to_bits());
+        println!("round 32 2 {:#x} 0 0 {:#x}", a, pa.round().to_bits());
+        println!("ceil 16 1 {:#x} 0 0 {:#x}", a16, qa.ceil().to_bits());
+    }
+}
+
 fn run(name: &str, _seed: u64) -> bool {
     match name {
         "c06_p32_sqrt_exhaustive" => c06_p32_sqrt_exhaustive(),
+        "dump" => dump(_seed),
         "c14_from_float_e2_bounded" => c14_from_float_e2_bounded(_seed),
         "c14_from_float_e1_bounded" => c14_from_float_e1_bounded(_seed),
         "c13_wide_e2_bounded" => c13_wide_e2_bounded(_seed),
